@@ -1,5 +1,6 @@
 import TarsModel.Proofs.LoggerAdmits
 import TarsModel.Proofs.LogWriter
+import TarsModel.Proofs.PanicExit
 
 /-!
 # C20 — Flush writes every log entry logged before it, once and in order
@@ -282,5 +283,35 @@ theorem C20_roll_counterexample_no_reopen :
 /-- The extractor saw the reopen at the end of the rotation branch of `RollFileWriter.Write`
 (`Consts.loggerRollReopenAfterRotate`): the theorems above are about the writer of this tree. -/
 theorem C20_roll_tree_reopens : LogWriter.treeReopens = true := by decide
+
+/-! ## The panic exit: `CheckPanic` flushes before it exits
+
+"In particular the entries logged immediately before a panic-triggered exit are not lost": on
+that path the flush of `C20_fixed_last_words` has to actually run, and run before `os.Exit`.
+Model: `Model/PanicExit.lean` (the recover branch of `tars.CheckPanic` as a statement sequence;
+`os.Exit` skips deferred calls). -/
+
+/-- the code as found: stack dump, flush, exit — in this order -/
+theorem C20_panic_as_found :
+    PanicExit.effects PanicExit.asFound = [.dump, .flush, .exit] ∧
+    PanicExit.flushedBeforeExit (PanicExit.effects PanicExit.asFound) = true := by decide
+
+/-- For every statement order of the branch: the process flushes the logs before it ends through
+`os.Exit` iff a plain `rogger.FlushLogger()` call statement stands before the first `os.Exit`
+(what the extractor anchor checks in the source). A deferred flush never counts. -/
+theorem C20_panic_flush_iff (body : List PanicExit.PStmt) :
+    PanicExit.flushedBeforeExit (PanicExit.effects body) = PanicExit.plainFlushBeforeExit body :=
+  PanicExit.flushed_iff_plain body 0
+
+/-- `defer rogger.FlushLogger()` in a branch that ends in `os.Exit`: the flush never runs -/
+theorem C20_panic_counterexample_deferred :
+    PanicExit.effects [.deferFlush, .dumpStack, .exit] = [.dump, .exit] ∧
+    PanicExit.flushedBeforeExit (PanicExit.effects [.deferFlush, .dumpStack, .exit]) = false := by
+  decide
+
+/-- the recover branch of `CheckPanic` in the current tree (statement order read by the extractor,
+`Consts.panicCheckPanicSeq`) flushes before it exits -/
+theorem C20_panic_tree :
+    PanicExit.flushedBeforeExit (PanicExit.effects PanicExit.treeBody) = true := by decide
 
 end Tars.Logger
